@@ -61,4 +61,5 @@ if __name__ == "__main__":
                 os.makedirs(dst)
                 for f in ("patch.diff", "meta.json"):
                     if os.path.exists(os.path.join(d, f)): shutil.copy(os.path.join(d, f), dst)
-    print("refactorings: %d, false alarms: %d" % (len(rs), fa))
+    stale = [d for d, st, _a, _e in rs if st != "ok"]; ae = sum(1 for _d, _s, _a, errs in rs if errs)
+    print("refactorings: %d, false alarms: %d, with analysis errors: %d, patches that no longer apply: %d %s" % (len(rs), fa, ae, len(stale), [os.path.basename(x) for x in stale] if stale else ""))
